@@ -3,9 +3,10 @@
    expected inbound number never moves backwards except through a store reset, for every event list (from C01).
    Trace level: the disconnect clauses (701/706) and the connect clauses (702/703: a connect changes nothing beyond the
    Logon an initiator sends; a Logon that resets is number 1 with the counters at 2/1) never fail on any model trace.
-   The received-reset-Logon clauses (704/705/707/709) are evaluated on every trace by c07_check (`_partial`). *)
+   Clause 708 (every transmitted Logon with ResetSeqNumFlag=Y is number 1) holds on every trace (WireProofs.v).
+   The received-reset-Logon and Logout clauses (704/705/707/709/710) are evaluated on every trace by c07_check (`_partial`). *)
 From Coq Require Import ZArith List Bool.
-From QF Require Import Base.Bytes Session.Types Session.Model Session.Spec Session.LocalProofs Session.C01Proofs Session.FrameProofs Session.TraceProofs Session.ConnectProofs.
+From QF Require Import Base.Bytes Session.Types Session.Model Session.Spec Session.LocalProofs Session.C01Proofs Session.FrameProofs Session.TraceProofs Session.ConnectProofs Session.WireProofs.
 Import ListNotations.
 Open Scope Z_scope.
 
@@ -63,3 +64,11 @@ Theorem c07_initiator_connect : forall s, is_connected (s_st s) = false -> c_rol
     then o_seq lg = 1 /\ s_snd s' = 2 /\ s_tgt s' = 1
     else o_seq lg = s_snd s /\ s_snd s' = s_snd s + 1 /\ s_tgt s' = s_tgt s /\ has_reset (rev (s_cbs s')) = false.
 Proof. exact initiator_connect_general. Qed.
+
+(* TRACE LEVEL.  Clause 708 never fails: every Logon the engine transmits (or queues) with ResetSeqNumFlag=Y carries
+   MsgSeqNum 1, whatever made it send one — connect with a reset option on a fresh store, ResetOnLogon, ResetSeqTime, the
+   reply to a peer's reset, or an application that sets the flag in ToAdmin / sends such a Logon itself: the store is
+   reset before the number is taken.  Invariant W over the wire log and the outbound queue, closed over every handler. *)
+Theorem c07_reset_logon_is_number_one_on_every_trace : forall c es,
+  free_of [708] (c07_check c (combine es (map obs_of (run_trace es (init_sess c))))) = true.
+Proof. exact c07_reset_logon_is_number_one. Qed.
